@@ -96,7 +96,7 @@ def fill(claim, na):
         "C20",
         "proof",
         "Lean 4 theorems on an association-list model of compatibility.update (frame property: non-owned keys keep the very same reference) + exact correspondence with the real update on random cards + deep comparison of the caller's cards around real runs",
-        "PARTIAL for the idempotence clause. Proved: every key update does not own (incl. nested kinematics lists, grids, CKM lists, held as opaque references) comes out with exactly the value it went in with, on both cards, for every scheme/target/optional-key combination. Idempotence is proved on a concrete instance and observed on every random card of every run; general Lean proof not done. Observed on the real code: cards deep-equal before/after construction, get_result and a second construction; output echoes cards, grid, pids, projectile.",
+        "Proved: every key update does not own (incl. nested kinematics lists, grids, CKM lists, held as opaque references) comes out with exactly the value it went in with, on both cards, for every scheme/target/optional-key combination (update_frame, nested_objects_shared); and update_idempotent: upgrading an already upgraded pair of cards returns exactly the same pair, for every card (every step is the identity on its own output and no later step touches what an earlier one reads or writes). Observed on the real code: exact correspondence of the real update with the model on random cards; cards deep-equal before/after construction, get_result and a second construction; idempotence on every random card; output echoes cards, grid, pids, projectile.",
         TB + "The model is functional, so 'no write through the caller's dict' is an observation on the real function, not a theorem; other modules mutating a card would only be seen by the real-run comparison.",
         "DESIGN.md 6/C20",
     )
